@@ -6,10 +6,12 @@ Require Import ExtrOcamlBasic.
 Require Import Selium.Base Selium.RustArith Selium.BackoffSpec Selium.BackoffRun.
 Require Import SeliumGen.Backoff.
 Require Import Selium.Regex Selium.TopicSpec Selium.TopicName.
+Require Import Selium.Bytes Selium.Utf8 Selium.Bincode Selium.Wire SeliumGen.Layouts.
 
 Extraction Language OCaml.
 Extraction "model.ml"
   N.add N.mul N.sub N.div N.modulo N.eqb N.ltb N.leb N.of_nat N.to_nat N.succ N.pred
   cfg_wfb spec_prefix spec_delay law
   BackoffRun.run BackoffRun.spec_obs BackoffRun.into_iter
+  Wire.encode Wire.decode Wire.run_feed Wire.norm_frame Wire.encode_batch Wire.decode_batch Layouts.frame_length Utf8.utf8_valid Bytes.be_val
   TopicName.try_from TopicName.create TopicName.is_valid TopicName.print TopicSpec.name_ok.
